@@ -343,7 +343,9 @@ fn main() {
     rep.set("corpus_chunks", json!(chunks.len()));
     if chunks.len() < 50 {
         rep.inconclusive("corpus under /repo too small (examples/docs missing?)");
-        std::process::exit(rep.finish());
+        let code = rep.finish();
+        drop(tmp);
+        std::process::exit(code);
     }
     let nshards = ncpu();
     let per_shard = args.pick(1200usize, 25_000usize);
@@ -538,5 +540,7 @@ fn main() {
             None => rep.inconclusive("re-measurement produced no outcome"),
         }
     }
-    std::process::exit(rep.finish());
+    let code = rep.finish();
+    drop(tmp);
+    std::process::exit(code);
 }
